@@ -60,4 +60,19 @@ func init() {
 			"(Minifier).Minify is an extern with no frame (may modify anything); its error result is returned unchanged (id(res) == evres)",
 		},
 	})
+	registerProp(&PropSpec{
+		ID: "C10",
+		Units: []string{
+			modPath + ".(*M).Bytes", modPath + ".(*M).String",
+			modPath + ".Decimal", modPath + ".Mediatype",
+		},
+		Custom: []string{"sweep"},
+		Notes: []string{
+			"input handed back on error: (*M).Bytes returns the caller's slice header AND its bytes are unchanged; (*M).String returns the caller's string. The byte clause rests on A-inplace (assumed contract of every Minifier: the reader's buffer is written only when it has spare capacity - tdewolff/parse NewInput), stated in /repo/zz_contracts_verif.go",
+			"no panic: all safety obligations (index, slice, nil, division, type assertion, overflow) of every unit under full contract in this framework, plus the zero-annotation SWEEP over all functions of the seven packages and the CLI: only the obligations that discharge on the unchanged tree (registry/C10-sweep.json) are claimed",
+			"A-recv: in sweep mode methods are assumed to be called on non-nil pointer receivers",
+			"no hang: termination variants are discharged for the loops of Decimal; bounded harnesses carry a step budget (unwind check). Time proportional to input size and memory growth: not decided",
+			"arbitrary byte strings through the dependency's lexers/parsers: not decided (A-dep)",
+		},
+	})
 }
